@@ -65,6 +65,31 @@ fn alternatives(c: &Creds) -> Vec<Creds> {
             v.push(Creds::Short(format!("{user}:{realm}:{pass}")));
         }
     }
+    // normalisation near-misses: a derivation that trims, unquotes, case-folds or otherwise
+    // "cleans" one of the parts makes the cleaned and the original credentials collide
+    let clean = |x: &str| -> Vec<String> {
+        let mut o = vec![x.trim().to_string(), x.trim_matches('"').to_string(), x.trim_matches('\'').to_string(), x.to_lowercase(), x.to_uppercase(), x.trim_end_matches('.').to_string(), x.replace(' ', ""), format!("\"{x}\""), format!(" {x}"), format!("{x}\n"), x.replace('\u{e9}', "e")];
+        o.retain(|y| y != x);
+        o
+    };
+    match c {
+        Creds::Short(p) => {
+            for q in clean(p) {
+                v.push(Creds::Short(q));
+            }
+        }
+        Creds::Long { user, realm, pass } => {
+            for q in clean(user) {
+                v.push(Creds::Long { user: q, realm: realm.clone(), pass: pass.clone() });
+            }
+            for q in clean(realm) {
+                v.push(Creds::Long { user: user.clone(), realm: q, pass: pass.clone() });
+            }
+            for q in clean(pass) {
+                v.push(Creds::Long { user: user.clone(), realm: realm.clone(), pass: q });
+            }
+        }
+    }
     // keys that collide by construction (user:realm:pass is ambiguous when parts contain ':') and
     // credentials equal to the original are not alternatives
     let k = c.key();
@@ -157,7 +182,7 @@ pub fn run(ctx: &Ctx) -> Report {
         wire::append_mi256(&mut b, b"some other key", 32);
         ref_sealed.push((b, c.clone(), "reference MI(correct) then MI256(wrong key)".into()));
     }
-    // (2b) key-length sweep: short-term passwords of every length 0..=140 (around the digest sizes
+    // (2b) decorated credentials (quotes, blanks, trailing dot, mixed case, non-ASCII in each part) with their cleaned forms as alternative keys; key-length sweep: short-term passwords of every length 0..=140 (around the digest sizes
     // and the 64-byte HMAC block) and long-term credentials with long parts, sealed by the real
     // builder and by the reference serialiser
     let mut sweep_creds: Vec<Creds> = Vec::new();
@@ -169,6 +194,13 @@ pub fn run(ctx: &Ctx) -> Report {
         let part = |salt: usize| -> String { (0..len).map(|i| (b'A' + ((i * 3 + salt) % 26) as u8) as char).collect() };
         sweep_creds.push(Creds::Long { user: part(1), realm: part(2), pass: part(3) });
         sweep_creds.push(Creds::Long { user: "u".into(), realm: "r".into(), pass: part(4) });
+    }
+    // decorated parts: quotes, surrounding blanks, trailing dot, mixed case, non-ASCII
+    for d in ["\"quoted\"", "'single'", " padded ", "Trailing.", "MiXeD", "caf\u{e9}", "a b", "tab\t", "\"", "\"\""] {
+        sweep_creds.push(Creds::Short(d.to_string()));
+        sweep_creds.push(Creds::Long { user: d.to_string(), realm: "realm".into(), pass: "pass".into() });
+        sweep_creds.push(Creds::Long { user: "user".into(), realm: d.to_string(), pass: "pass".into() });
+        sweep_creds.push(Creds::Long { user: "user".into(), realm: "realm".into(), pass: d.to_string() });
     }
     for c in &sweep_creds {
         let key = c.key();
@@ -310,7 +342,7 @@ pub fn run(ctx: &Ctx) -> Report {
     Report {
         acc,
         exhaustive: true,
-        rule: "8 bodies x fingerprint yes/no x 8 credentials x {SHA-1, SHA-256, both} sealed by the real builder; reference-serialised messages with SHA-256 truncated to 12..36 bytes, MI256-before-MI order and mixed correctness; on each: every single-bit flip and every byte value at every position from offset 0 through the end of the last integrity attribute, plausible alternative HMAC values in each integrity attribute (other length fields, other ranges, the other hash), up to 25 near-miss keys (case, trailing space / NUL, prefixes of 16/20/32/63/64/65/128 bytes, other credential kind, swapped parts); key-length sweep: short-term passwords of every length 0..=140 and long-term credentials with parts of 0..200 bytes x {SHA-1, SHA-256, both} x {builder, reference serialiser}; unsealed bodies x 8 credentials; distinct_nontrivial = sealed buffers".into(),
+        rule: "8 bodies x fingerprint yes/no x 8 credentials x {SHA-1, SHA-256, both} sealed by the real builder; reference-serialised messages with SHA-256 truncated to 12..36 bytes, MI256-before-MI order and mixed correctness; on each: every single-bit flip and every byte value at every position from offset 0 through the end of the last integrity attribute, plausible alternative HMAC values in each integrity attribute (other length fields, other ranges, the other hash), up to 25 near-miss keys (case, trailing space / NUL, prefixes of 16/20/32/63/64/65/128 bytes, other credential kind, swapped parts); decorated credentials (quotes, blanks, trailing dot, mixed case, non-ASCII in each part) with their cleaned forms as alternative keys; key-length sweep: short-term passwords of every length 0..=140 and long-term credentials with parts of 0..200 bytes x {SHA-1, SHA-256, both} x {builder, reference serialiser}; unsealed bodies x 8 credentials; distinct_nontrivial = sealed buffers".into(),
         bounds: json!({"sealed_buffers": n_sealed, "unsealed": unsealed.len(), "faults": if thorough { "single bit, all byte values, length-bit x any-bit pairs" } else { "single bit, all byte values" }}),
         assumptions: vec!["HMAC-SHA1/SHA-256 collision resistance (no forgery that needs to break the MAC is explored)".into(), "keys outside the alternative-key alphabet are not explored".into()],
         ..Default::default()
